@@ -1444,6 +1444,11 @@ struct const_subarray : array_types<T, D, ElementPtr, Layout> {
  private:
 	BOOST_MULTI_HD constexpr auto chunked_aux_(size_type count) const {
 		BOOST_MULTI_ASSERT( this->size() % count == 0 );
+		if(this->size() == 0) {  // no chunks: partitioned_aux_(0) would assert and divide by zero
+			multi::layout_t<D+1> new_layout{this->layout(), count*this->stride(), 0, 0};
+			new_layout.sub().nelems() = count*this->stride();
+			return subarray<T, D+1, element_ptr>(new_layout, types::base_);
+		}
 		return partitioned_aux_(this->size()/count);
 	}
 
@@ -3029,6 +3034,11 @@ struct const_subarray<T, 1, ElementPtr, Layout>  // NOLINT(fuchsia-multiple-inhe
  private:
 	BOOST_MULTI_HD constexpr auto chunked_aux_(size_type size) const {
 		BOOST_MULTI_ASSERT( this->size() % size == 0 );
+		if(this->size() == 0) {  // no chunks: partitioned_aux_(0) would assert and divide by zero
+			multi::layout_t<2> new_layout{this->layout(), size*this->stride(), 0, 0};
+			new_layout.sub().nelems() = size*this->stride();
+			return subarray<T, 2, element_ptr>(new_layout, types::base_);
+		}
 		return partitioned_aux_(this->size()/size);
 	}
 
